@@ -168,9 +168,13 @@ template <class T, class O, unsigned D> struct Obj {
     PARAMS("construct W=%u depth=%u out_class=%c%d " PFMT, W, D, ot::sg ? 'i' : 'u', ot::bits, PARG(p));
     if (p.ctor == 0) { acct::Op op; g = new FG(p.sigma(), p.lam, p.m, p.c()); }
     else {
-      mpfr_t c; mpfr_init2(c, 256); centre_mpfr(c, p);
-      { acct::Op op; g = new FG(p.sigma(), p.lam, p.m, c); }
-      mpfr_clear(c);
+      // an argument passed by pointer (mpfr_t is an array type) stays the CALLER's: same value, precision and limb storage after
+      // construction, and again after the sampler is destroyed (checked in ~Obj; under ASan a block the sampler released is caught there)
+      mpfr_init2(arg_c, 256); centre_mpfr(arg_c, p);
+      mpfr_init2(arg_copy, 256); mpfr_set(arg_copy, arg_c, MPFR_RNDN);
+      arg_limbs = (const void*)arg_c->_mpfr_d; has_arg = true;
+      { acct::Op op; g = new FG(p.sigma(), p.lam, p.m, arg_c); }
+      arg_check(0);
     }
     wp = g->_word_precision; nb = g->_number_of_barriers;
     if (index_barriers) for (unsigned i = 0; i < nb; i++) bidx[g->barriers[i]] = (int)i;
@@ -178,6 +182,15 @@ template <class T, class O, unsigned D> struct Obj {
   ~Obj() {
     PARAMS("destroy W=%u depth=%u " PFMT, W, D, PARG(p));
     { acct::Op op; delete g; }
+    if (has_arg) { arg_check(1); mpfr_clear(arg_c); mpfr_clear(arg_copy); }
+  }
+  mpfr_t arg_c, arg_copy; const void* arg_limbs = nullptr; bool has_arg = false;
+  // gctorarg W depth ctor when(0 after construction, 1 after destruction) => value_changed precision_changed storage_changed
+  void arg_check(int when) {
+    int vch = mpfr_equal_p(arg_c, arg_copy) ? 0 : 1;            // NaN compares unequal
+    int pch = mpfr_get_prec(arg_c) == 256 ? 0 : 1;
+    int sch = (const void*)arg_c->_mpfr_d == arg_limbs ? 0 : 1;
+    printf("gctorarg %u %u %d %d => %d %d %d\n", W, D, p.ctor, when, vch, pch, sch);
   }
   void emit_par() {
     printf("gpar %u %u %u %ld %ld %u %u %u => 1\n", W, p.lam, p.m, p.sn, p.sd, wp, nb, g->_bit_precision);
